@@ -847,6 +847,10 @@ func (s *state) callMods(ms *modSet, d ssa.CallInstruction, seen map[*ssa.Functi
 			return
 		}
 		for _, hb := range s.modBases(fc, callee) {
+			if hb == "*like*" {
+				ms.all = true // (static scan of a loop body: the function value is not known here)
+				continue
+			}
 			ms.heaps[hb] = true
 		}
 		return
@@ -880,6 +884,10 @@ func (s *state) modBases(fc *funcContract, callee *ssa.Function) []string {
 	}
 	e := sc.contractEnv(fc, callee, args, nil)
 	for _, m := range fc.modifies {
+		if likeParam(m) != "" {
+			out = append(out, "*like*")
+			continue
+		}
 		e.what = "modifies " + m.src
 		out = append(out, e.modBase(m.e)...)
 	}
